@@ -211,4 +211,124 @@ theorem linkRoots_refines {σ : Type} [Inhabited σ] (ids pids : List Int) (hnd 
       rw [e]
       simp [finish]
 
+/-! ### the tail of `read_swc` (from `# fix swc`): a composition of the translated callees -/
+
+section stages
+variable {σ : Type} [Inhabited σ]
+
+/-- a state of the translated tail of `read_swc` (no warning issued yet) -/
+@[simp] def mkV (ids pids types rs : List Int) (mode : Option String) (srt rst : Bool) (cbs : σ) : read_swc_fix.V σ :=
+  { ids := ids, pids := pids, types := types, rs := rs, fix_roots := mode, sort_nodes := srt, reset_index := rst, warnings_ := [], cbs := cbs }
+
+theorem seq_of_next {V R : Type} (s1 s2 : V → Res V R) (v v' : V) (h : s1 v = .next v') : seq s1 s2 v = s2 v' := by simp [seq, h]
+theorem seq_of_err {V R : Type} (s1 s2 : V → Res V R) (v : V) (h : s1 v = .err) : seq s1 s2 v = .err := by simp [seq, h]
+
+/-- `# fix swc`: the `match` on `fix_roots`, entered only with several roots; returns the parent column, the type column and the callback state -/
+def fixStage (norm : σ → Int → σ × List Int) (fuel : Nat) (ids pids types : List Int) (mode : Option String) (cbs : σ) :
+    Option (List Int × List Int × σ) :=
+  match mode with
+  | none => some (pids, types, cbs)
+  | some m =>
+    if countNonzero (eqMask pids (-1)) > 1 then
+      if m = "somas" then (mark_roots_as_somas_ ids pids types (some 1)).map fun r => (r.1, r.2.1, cbs)
+      else if m = "nearest" then (link_roots_to_nearest_ norm fuel ids pids cbs).map fun r => (r.1, types, r.2.1)
+      else none
+    else some (pids, types, cbs)
+
+/-- `sort_nodes_` or else `reset_index_` -/
+def normStage (fuel : Nat) (ids pids types rs : List Int) (srt rst : Bool) : Option (List Int × List Int × List Int × List Int) :=
+  if srt then (sort_nodes_ fuel ids pids types rs).map fun r => (r.1, r.2.1, r.2.2.1, r.2.2.2.1)
+  else if rst then (reset_index_ ids pids).map fun r => (r.1, r.2.1, types, rs)
+  else some (ids, pids, types, rs)
+
+/-- `# check swc`: the warnings issued, as call-site numbers (0 = not a simple tree, 1 = root is not the first node, 2 = non-positive radius) -/
+def checkStage (fuel : Nat) (ids pids rs : List Int) : Option (List Int) :=
+  (is_single_root fuel ids pids).bind fun b => (argmaxMask (eqMask pids (-1))).map fun loc =>
+    (if b then [] else [(0 : Int)]) ++ (if loc ≠ 0 then [(1 : Int)] else []) ++ (if Py.any (leMask rs 0) then [(2 : Int)] else [])
+
+/-- **the tail of `read_swc` as translated is the composition repair → normalisation → checks of the translated callees, for EVERY input and
+every option** (an exception anywhere is an exception of the whole) -/
+theorem readFix_stages (norm : σ → Int → σ × List Int) (fuel : Nat) (ids pids types rs : List Int) (mode : Option String)
+    (srt rst : Bool) (cbs : σ) :
+    read_swc_fix norm fuel ids pids types rs mode srt rst cbs =
+      (fixStage norm fuel ids pids types mode cbs).bind fun f =>
+        (normStage fuel ids f.1 f.2.1 rs srt rst).bind fun g =>
+          (checkStage fuel g.1 g.2.1 g.2.2.2).map fun w => (g.1, g.2.1, g.2.2.1, g.2.2.2, w, f.2.2, ()) := by
+  -- the three checks, for any state reached
+  have tail : ∀ (v : read_swc_fix.V σ), v.warnings_ = [] →
+      (Py.finish () ((Py.seq (fun (v : read_swc_fix.V σ) =>
+        Py.bind (is_single_root fuel v.ids v.pids) fun t5 =>
+        if (!t5) then (fun (v : read_swc_fix.V σ) => Res.next (R := Unit) { v with warnings_ := v.warnings_ ++ [(0 : Int)] }) v else Py.skip v)
+      (Py.seq (fun (v : read_swc_fix.V σ) =>
+        Py.bind (Py.argmaxMask (Py.eqMask v.pids (-(1 : Int)))) fun t6 =>
+        if (decide (t6 ≠ (0 : Int))) then (fun (v : read_swc_fix.V σ) => Res.next { v with warnings_ := v.warnings_ ++ [(1 : Int)] }) v else Py.skip v)
+      (Py.seq (fun (v : read_swc_fix.V σ) =>
+        if (Py.any (Py.leMask v.rs (0 : Int))) then (fun (v : read_swc_fix.V σ) => Res.next { v with warnings_ := v.warnings_ ++ [(2 : Int)] }) v else Py.skip v)
+      (fun (v : read_swc_fix.V σ) => Res.ret v ())))) v)).map (fun r => (r.1.ids, r.1.pids, r.1.types, r.1.rs, r.1.warnings_, r.1.cbs, r.2)) =
+      (checkStage fuel v.ids v.pids v.rs).map fun w => (v.ids, v.pids, v.types, v.rs, w, v.cbs, ()) := by
+    intro v hw
+    unfold checkStage
+    cases h1 : is_single_root fuel v.ids v.pids with
+    | none => simp [seq, Py.bind, finish, h1]
+    | some b =>
+      cases h2 : argmaxMask (eqMask v.pids (-1)) with
+      | none => cases b <;> simp [seq, Py.bind, finish, h1, h2, skip]
+      | some loc =>
+        cases b <;> by_cases h3 : loc = 0 <;> cases h4 : Py.any (leMask v.rs 0) <;>
+          simp [seq, Py.bind, finish, h1, h2, skip, h3, h4, hw]
+  unfold read_swc_fix read_swc_fix.body
+  cases hf : fixStage norm fuel ids pids types mode cbs with
+  | none =>
+    rw [seq_of_err]
+    · simp [finish]
+    · revert hf; unfold fixStage
+      cases mode with
+      | none => simp
+      | some m =>
+        by_cases hc : countNonzero (eqMask pids (-1)) > 1
+        · by_cases h1 : m = "somas"
+          · subst h1; cases hm : mark_roots_as_somas_ ids pids types (some 1) <;> simp [hc, hm, Py.bind]
+          · by_cases h2 : m = "nearest"
+            · subst h2; cases hm : link_roots_to_nearest_ norm fuel ids pids cbs <;> simp [hc, hm, Py.bind]
+            · simp [hc, h1, h2]
+        · simp [hc]
+  | some f =>
+    rw [seq_of_next (v' := mkV ids f.1 f.2.1 rs mode srt rst f.2.2)]
+    · simp only [Option.bind_some]
+      cases hg : normStage fuel ids f.1 f.2.1 rs srt rst with
+      | none =>
+        rw [seq_of_err]
+        · simp [finish]
+        · revert hg; unfold normStage
+          cases srt with
+          | true => cases hm : sort_nodes_ fuel ids f.1 f.2.1 rs <;> simp [hm, Py.bind]
+          | false =>
+            cases rst with
+            | true => cases hm : reset_index_ ids f.1 <;> simp [hm, Py.bind]
+            | false => simp
+      | some g =>
+        rw [seq_of_next (v' := mkV g.1 g.2.1 g.2.2.1 g.2.2.2 mode srt rst f.2.2)]
+        · simp only [Option.bind_some]
+          exact tail _ rfl
+        · revert hg; unfold normStage
+          cases srt with
+          | true => cases hm : sort_nodes_ fuel ids f.1 f.2.1 rs <;> simp [hm, Py.bind] <;> (intro h; subst h; simp <;> rfl)
+          | false =>
+            cases rst with
+            | true => cases hm : reset_index_ ids f.1 <;> simp [hm, Py.bind, skip] <;> (intro h; subst h; simp <;> rfl)
+            | false => simp [skip]; intro h; subst h; simp <;> rfl
+    · revert hf; unfold fixStage
+      cases mode with
+      | none => simp [skip]; intro h; subst h; simp <;> rfl
+      | some m =>
+        by_cases hc : countNonzero (eqMask pids (-1)) > 1
+        · by_cases h1 : m = "somas"
+          · subst h1; cases hm : mark_roots_as_somas_ ids pids types (some 1) <;> simp [hc, hm, Py.bind] <;> (intro h; subst h; simp <;> rfl)
+          · by_cases h2 : m = "nearest"
+            · subst h2; cases hm : link_roots_to_nearest_ norm fuel ids pids cbs <;> simp [hc, hm, Py.bind] <;> (intro h; subst h; simp <;> rfl)
+            · simp [hc, h1, h2]
+        · simp [hc, skip]; intro h; subst h; simp <;> rfl
+
+end stages
+
 end RefineRepair
